@@ -507,7 +507,12 @@ def is_gauss_seidel_with_stale_weak_outputs(cfg: dict, model: CoupledSystem, ord
                           for n in model.inputs_of[d] if n in model.producer), default=0)
         return lag[d]
 
-    return any(lag_of(d) >= 2 for d in range(len(succ)) if d not in in_cycle)
+    # with an acceleration or a relaxation the last move of the iterates is not bounded by the residual that the stop
+    # criterion watches: a single sweep of lag already leaves such a discipline stale by more than the tolerance
+    # (Alternate2Delta: 2.1e-6 at tolerance 1e-6; thorough tier, seed 6) - same root cause, same ledger entry
+    transformed = any(s["cls"] == "MDAGaussSeidel" and (s.get("acc", "NoTransformation") != "NoTransformation" or float(s.get("omega", 1.0)) != 1.0)
+                      for s in solver_parts(cfg))
+    return any(lag_of(d) >= (1 if transformed else 2) for d in range(len(succ)) if d not in in_cycle)
 
 
 NONLIN_SOLVE_METHODS = {"broyden1", "broyden2", "anderson", "krylov"}
